@@ -249,6 +249,8 @@ def b_cum(c):
     ax = axis_arg(c["ax"])
     if onp.ndim(x) == 0:
         x = onp.array(x)
+    if c["form"] == "method":
+        return (lambda v: getattr(v, c["prim"])(ax)), x, {}
     return (lambda v: getattr(np, c["prim"])(v, axis=ax)), x, {}
 
 
@@ -305,6 +307,8 @@ def b_rearr(c):
                 f = lambda v: v.transpose(*tp)
             else:
                 f = lambda v: v.transpose(tuple(tp))
+    elif prim == "swapaxes" and form == "method":
+        f = lambda v: v.swapaxes(ia, ib)
     elif prim in ("swapaxes", "moveaxis", "rollaxis"):
         f = lambda v: getattr(np, prim)(v, ia, ib)
     elif prim == "expand_dims":
@@ -325,6 +329,8 @@ def b_rearr(c):
         f = (lambda v: np.ravel(v, order=st)) if form == "func" else (lambda v: v.ravel(order=st))
     elif prim == "flatten":
         f = lambda v: v.flatten()
+    elif prim == "repeat" and form == "method":
+        f = (lambda v: v.repeat(ia, ax)) if c["id"] % 2 else (lambda v: v.repeat(ia, axis=ax))
     elif prim == "repeat":
         f = lambda v: np.repeat(v, ia, axis=ax)
     elif prim == "tile":
@@ -356,6 +362,15 @@ def b_rearr(c):
             f = lambda v: getattr(np, prim)(v, offset=ia)
     elif prim == "diff":
         f = lambda v: np.diff(v, n=ia, axis=ax)
+    elif prim == "gradient" and st in ("tupleaxis", "listaxis", "multi"):
+        axs = None if st == "multi" else (tuple(tp) if st == "tupleaxis" else list(tp))
+
+        def f(v):
+            parts = np.gradient(v) if axs is None else np.gradient(v, axis=axs)
+            tot = 0.0
+            for k in range(len(parts)):
+                tot = tot + (k + 1.5) * parts[k]
+            return tot
     elif prim == "gradient":
         if st == "axis":
             f = lambda v: np.gradient(v, axis=ax)
@@ -597,6 +612,32 @@ def b_linalg(c):
         if c["argnum"] == 0:
             return (lambda v: la.solve(v, B)), M, {}
         return (lambda y: la.solve(M, y)), B, {}
+    if cplx and prim in ("cholesky", "eigh", "eig", "svd"):
+        # complex variants, restricted to outputs that do not depend on the arbitrary phase of eigen / singular vectors
+        Ac = data(batch + (n, n), 0.1, 1.0, 2, True)
+        H = Ac @ onp.conj(onp.swapaxes(Ac, -1, -2)) + n * onp.eye(n) + onp.diag(onp.arange(n) * 0.7)
+        herm = lambda v: 0.5 * (v + np.conj(np.swapaxes(v, -1, -2)))
+        if prim == "cholesky":
+            return (lambda v: la.cholesky(herm(v))), H, {}
+        if prim == "eigh":
+            kw = () if st == "default" else (st,)
+            if out == 0:
+                return (lambda v: la.eigh(herm(v), *kw)[0]), H, {}
+            return (lambda v: np.abs(la.eigh(herm(v), *kw)[1]) ** 2), H, {}
+        if prim == "eig":
+            G = data(batch + (n, n), 0.5, 2.5, 3, True) + onp.diag(onp.arange(n) * 1.3)
+            if out == 0:
+                return (lambda v: la.eig(v)[0]), G, {}
+            return (lambda v: np.abs(la.eig(v)[1]) ** 2), G, {}
+        R = data(batch + (n, m), 0.5, 2.5, 1, True)
+        if st == "s_only":
+            if out:
+                raise Skip("single output")
+            return (lambda v: la.svd(v, compute_uv=False)), R, {}
+        fm = st == "full"
+        if out == 1:
+            return (lambda v: la.svd(v, full_matrices=fm)[1]), R, {}
+        return (lambda v: np.abs(la.svd(v, full_matrices=fm)[out]) ** 2), R, {}
     # symmetric positive definite input, differentiated through an explicit symmetrisation
     A = data(batch + (n, n), 0.1, 1.0, 2)
     S = A @ onp.swapaxes(A, -1, -2) + n * onp.eye(n) + onp.diag(onp.arange(n) * 0.7)
